@@ -34,6 +34,7 @@ def _space(tier):
     full = [kp for kp in A.sigma_param(docs=A.DOCS[:2] + A.DOCS[4:], types=TYPES) if kp[0][1] != "code"]
     small = [kp for kp in A.sigma_int()]
     yield from A.ir_space(full, small, 3 if tier == "quick" else 3, returns_1=A.RETURNS[:2] + A.RETURNS[3:], returns_n=A.RETURNS[:2])
+    yield from A.ir_space([], small, 3, returns_n=A.RETURNS[:1], alt_names=[A.KWARGS_NAMES])
     if tier == "thorough":
         plain = [kp for kp in A.sigma_param(docs=A.DOCS_BASIC, types=TYPES) if kp[0][1] != "code"]
         for a, b in itertools.product(plain, repeat=2):
@@ -232,6 +233,10 @@ def check_argparse(ns, ir, v):
 def run_config(ir, cfg):
     viol = []
     ctx = dict(check="emitted_code", fmt=cfg["fmt"], style=cfg["style"])
+    if any(n.endswith("kwargs") for n in list(ir["params"])[:-1]):
+        ctx["kwargs_name_not_last"] = True
+    if any((p.get("typ") or "").replace("Optional[", "").rstrip("]") == "float" and isinstance(p.get("default"), int) and not isinstance(p.get("default"), bool) for p in ir["params"].values()):
+        ctx["int_under_float"] = True
     if cfg["fmt"] == "function":
         ctx.update(type_annotations=cfg["kw"]["type_annotations"], kwonly=cfg["kw"]["emit_as_kwonlyargs"])
     ret = ir["returns"]["return_type"] if ir["returns"] else None
